@@ -1,11 +1,14 @@
 (* C02, binary64: a concrete sufficient condition for [survivors_ok] (PopNoErr.v), "the survival
    threshold keeps at least the champion of every species":
-     int(math.Floor(SurvivalThresh * float64(n) + 1)) >= 1   for every n >= 1.
-   NOT true for every finite SurvivalThresh >= 0: in the model (as in Go, where int(+Inf) is
-   implementation-defined) the product may overflow to +Inf, e.g. SurvivalThresh = 2^1023, n = 2
-   gives +Inf, math.Floor(+Inf) = +Inf and the model's int(+Inf) = 0 ([survivors_ok_overflow_refuted]).
-   True for every n (also n >= 2^63, where float64(n) wraps through Uint63.of_Z but stays in
-   [0, 2^63]) as soon as 0 <= SurvivalThresh <= 2^900, in particular for SurvivalThresh in [0,1]. *)
+     int(math.Floor(SurvivalThresh * float64(n) + 1)) >= 1   for every species size 1 <= n < 2^31.
+   int(x) is modelled as on amd64 (F64.f_trunc_Z, platform assumption "amd64-cvttsd2sq"): NaN, the
+   infinities and every finite value from 2^63 on convert to math.MinInt64.  So the statement is NOT
+   true for every finite SurvivalThresh >= 0: SurvivalThresh = 2^1023, n = 2 gives +Inf,
+   math.Floor(+Inf) = +Inf and int(+Inf) = math.MinInt64 ([survivors_ok_overflow_refuted]; with a
+   negative numParents adjustFitness then panics, index out of range).  Nor is it true of any positive
+   threshold for EVERY n: for SurvivalThresh = 1 and n = 2^63 - 1 the sum is 2^63
+   ([survivors_ok_unbounded_refuted]).  True for every n < 2^31 as soon as
+   0 <= SurvivalThresh <= 2^29 (the sum is below 2^61), in particular for SurvivalThresh in [0,1]. *)
 From Coq Require Import ZArith Reals Lra Lia Bool List.
 From Flocq Require Import Core BinarySingleNaN.
 From Coq Require Import Floats.
@@ -84,51 +87,95 @@ Proof.
   split; [exact Fa|]. fold a in Ea. rewrite Ea. apply rnd_between in Hr. rewrite FR_one in Hr |- *. apply Hr.
 Qed.
 
-(* int(math.Floor(a)) >= 1 for every finite a >= 1 *)
-Lemma trunc_ffloor_ge1 a : fin a -> (1 <= FR a)%R -> 1 <= f_trunc_Z (ffloor a).
+(* int(math.Floor(a)) >= 1 for every finite 1 <= a < 2^63 *)
+Lemma trunc_ffloor_ge1 a : fin a -> (1 <= FR a < bpow radix2 63)%R -> 1 <= f_trunc_Z (ffloor a).
 Proof.
-  intros Fa A1.
+  intros Fa [A1 A63].
   assert (Hz : 1 <= Zfloor (FR a)) by (apply Zfloor_lub; exact A1).
   destruct (PrimFloat.leb two52 (PrimFloat.abs a)) eqn:E.
-  - unfold ffloor. rewrite E. rewrite f_trunc_Z_floor by (try exact Fa; lra). exact Hz.
+  - unfold ffloor. rewrite E. rewrite f_trunc_Z_floor by (try exact Fa; try exact A63; lra). exact Hz.
   - rewrite trunc_ffloor; [exact Hz|exact Fa|]. split; [lra|].
     rewrite leb_R in E by auto using fin_two52, fin_abs.
     rewrite FR_two52, FR_abs, Rabs_pos_eq in E by lra.
     revert E. case Rle_bool_spec; [discriminate|auto].
 Qed.
 
-(* ---------- the sufficient conditions ---------- *)
-Lemma survivors_ok_bounded : forall o,
-  PrimFloat.leb 0%float (o_survival o) = true -> PrimFloat.leb (o_survival o) 0x1p+900%float = true -> survivors_ok o.
+(* ---------- SurvivalThresh * float64(n) + 1 for 0 <= SurvivalThresh <= 2^29, 1 <= n < 2^31 ---------- *)
+Definition c29 : float := 0x1p+29%float.
+Lemma FR_c29 : FR c29 = bpow radix2 29. Proof. apply FR_pow2_const. vm_compute. reflexivity. Qed.
+Lemma fin_c29 : fin c29. Proof. fin_c. Qed.
+
+Lemma survival_sum_small s n : PrimFloat.leb 0%float s = true -> PrimFloat.leb s c29 = true -> 1 <= n < 2 ^ 31 ->
+  let a := PrimFloat.add (PrimFloat.mul s (f_of_Z n)) 1%float in fin a /\ (1 <= FR a <= bpow radix2 61)%R.
 Proof.
-  intros o H0 H1 n Hn. unfold num_parents.
-  destruct (survival_sum_R (o_survival o) n H0 H1 Hn) as [Fa A1]. now apply trunc_ffloor_ge1.
+  intros H0 H1 Hn a.
+  assert (Fs : fin s) by exact (leb_leb_fin _ _ H0 H1 fin_c29).
+  assert (S0 : (0 <= FR s)%R) by (rewrite <- FR_zero; apply leb_true_R; auto using fin_zero).
+  assert (S1 : (FR s <= bpow radix2 29)%R) by (rewrite <- FR_c29; apply leb_true_R; auto using fin_c29).
+  destruct (f_of_Z_exact n) as [Fl El]; [lia|].
+  assert (L0 : (0 <= FR (f_of_Z n))%R) by (rewrite El; apply IZR_le; lia).
+  assert (L1 : (FR (f_of_Z n) <= bpow radix2 31)%R).
+  { rewrite El. rewrite <- (IZR_Zpower radix2 31) by lia. apply IZR_le. change (Zpower radix2 31) with (2 ^ 31). lia. }
+  assert (P60 : (bpow radix2 29 * bpow radix2 31 = bpow radix2 60)%R) by (rewrite <- bpow_plus; reflexivity).
+  assert (P61 : (bpow radix2 61 = 2 * bpow radix2 60)%R) by (change 61 with (1 + 60); rewrite bpow_plus; reflexivity).
+  assert (G1 : (1 <= bpow radix2 60)%R) by (change 1%R with (bpow radix2 0); apply bpow_le; lia).
+  assert (Lt : (bpow radix2 61 < two1024)%R) by (apply bpow_lt; unfold emax; lia).
+  assert (Hprod : (0 <= FR s * FR (f_of_Z n) <= bpow radix2 60)%R).
+  { split; [nra|]. rewrite <- P60. apply Rmult_le_compat; lra. }
+  assert (Rp : (0 <= rnd (FR s * FR (f_of_Z n)) <= bpow radix2 60)%R).
+  { split; [apply rnd_nonneg; apply Hprod|]. rewrite <- (rnd_bpow 60) by lia. apply rnd_le. apply Hprod. }
+  destruct (mul_R s (f_of_Z n) Fs Fl) as [Ep Fp]; [rewrite Rabs_pos_eq by apply Rp; lra|].
+  set (p := PrimFloat.mul s (f_of_Z n)) in *.
+  assert (Rs : (1 <= rnd (FR p + FR 1%float) <= bpow radix2 61)%R).
+  { rewrite FR_one, Ep. split.
+    - replace 1%R with (rnd 1) at 1 by (change 1%R with (bpow radix2 0); apply rnd_bpow; lia). apply rnd_le. lra.
+    - rewrite <- (rnd_bpow 61) by lia. apply rnd_le. lra. }
+  destruct (add_R p 1%float Fp fin_one) as [Ea Fa]; [rewrite Rabs_pos_eq by lra; lra|].
+  split; [exact Fa|]. fold a in Ea. rewrite Ea. exact Rs.
 Qed.
 
-Lemma leb_1_c900 s : PrimFloat.leb 0%float s = true -> PrimFloat.leb s 1%float = true -> PrimFloat.leb s c900 = true.
+(* ---------- the sufficient conditions ---------- *)
+Lemma survivors_ok_bounded : forall o,
+  PrimFloat.leb 0%float (o_survival o) = true -> PrimFloat.leb (o_survival o) 0x1p+29%float = true -> survivors_ok o.
+Proof.
+  intros o H0 H1 n Hn. unfold num_parents.
+  destruct (survival_sum_small (o_survival o) n H0 H1 Hn) as [Fa [A1 A2]]. apply trunc_ffloor_ge1; [exact Fa|].
+  split; [exact A1|]. apply Rle_lt_trans with (1 := A2). apply bpow_lt. lia.
+Qed.
+
+Lemma leb_1_c29 s : PrimFloat.leb 0%float s = true -> PrimFloat.leb s 1%float = true -> PrimFloat.leb s c29 = true.
 Proof.
   intros H0 H1. assert (Fs : fin s) by exact (leb_leb_fin _ _ H0 H1 fin_one).
-  apply leb_of_R; [exact Fs|exact fin_c900|]. rewrite FR_c900.
+  apply leb_of_R; [exact Fs|exact fin_c29|]. rewrite FR_c29.
   apply Rle_trans with 1%R; [rewrite <- FR_one; apply leb_true_R; auto using fin_one|].
   change 1%R with (bpow radix2 0). apply bpow_le. lia.
 Qed.
 
-(* SurvivalThresh in [0,1] keeps at least the champion, for every species size *)
+(* SurvivalThresh in [0,1] keeps at least the champion, for every species size below 2^31 *)
 Lemma survivors_ok_unit : forall o,
   PrimFloat.leb 0%float (o_survival o) = true -> PrimFloat.leb (o_survival o) 1%float = true -> survivors_ok o.
-Proof. intros o H0 H1. apply survivors_ok_bounded; [exact H0|]. now apply leb_1_c900. Qed.
+Proof. intros o H0 H1. apply survivors_ok_bounded; [exact H0|]. now apply leb_1_c29. Qed.
 
 Definition survivors_ok_upto (o : options) (N : Z) : Prop := forall n, 1 <= n <= N -> 1 <= num_parents o n.
 
 Lemma survivors_ok_upto_nonneg : forall o,
   PrimFloat.leb 0%float (o_survival o) = true -> PrimFloat.leb (o_survival o) 1%float = true ->
-  survivors_ok_upto o (2 ^ 31).
+  survivors_ok_upto o (2 ^ 31 - 1).
 Proof. intros o H0 H1 n Hn. apply (survivors_ok_unit o H0 H1). lia. Qed.
 
-(* the unbounded statement "finite and >= 0 suffices" is false in the model: 2^1023 * 2 overflows *)
+(* "finite and >= 0 suffices" is false: 2^1023 * 2 overflows to +Inf, and int(+Inf) = math.MinInt64 *)
 Lemma survivors_ok_overflow_refuted : forall o, o_survival o = 0x1p+1023%float ->
-  PrimFloat.leb 0%float (o_survival o) = true /\ PrimFloat.ltb (o_survival o) infinity = true /\ ~ survivors_ok o.
+  PrimFloat.leb 0%float (o_survival o) = true /\ PrimFloat.ltb (o_survival o) infinity = true /\ ~ survivors_ok o /\
+  num_parents o 2 = int64_indefinite.
 Proof.
   intros o E. rewrite E. split; [vm_compute; reflexivity|]. split; [vm_compute; reflexivity|].
-  intros H. specialize (H 2 ltac:(lia)). unfold num_parents in H. rewrite E in H. vm_compute in H. apply H. reflexivity.
+  assert (N : num_parents o 2 = int64_indefinite) by (unfold num_parents; rewrite E; vm_compute; reflexivity).
+  split; [|exact N].
+  intros H. specialize (H 2 ltac:(lia)). rewrite N in H. vm_compute in H. apply H. reflexivity.
 Qed.
+
+(* no bound on the species size: for SurvivalThresh = 1 a species of 2^63 - 1 organisms (the largest
+   Go int) has float64(n) = 2^63, 1 * 2^63 + 1 = 2^63 and int(2^63) = math.MinInt64 *)
+Lemma survivors_ok_unbounded_refuted : forall o, o_survival o = 1%float ->
+  num_parents o (2 ^ 63 - 1) = int64_indefinite.
+Proof. intros o E. unfold num_parents. rewrite E. vm_compute. reflexivity. Qed.
